@@ -252,16 +252,23 @@ func validateServiceEndpoint(serviceEndpoint interface{}) error {
 		return validateServiceEndpointObjects(objs)
 	}
 
-	return nil
+	if _, ok := serviceEndpoint.(map[string]interface{}); ok {
+		return nil
+	}
+
+	return errors.New("service endpoint must be a URI, an object or an array of URIs and objects")
 }
 
 func validateServiceEndpointObjects(objs []interface{}) error {
 	for _, obj := range objs {
-		uri, ok := obj.(string)
-		if ok {
-			if err := validateURI(uri); err != nil {
+		switch v := obj.(type) {
+		case string:
+			if err := validateURI(v); err != nil {
 				return err
 			}
+		case map[string]interface{}:
+		default:
+			return errors.New("service endpoint must be a URI, an object or an array of URIs and objects")
 		}
 	}
 
